@@ -85,7 +85,12 @@ func runC08Model(res *lp.Result, inputs [][]byte) {
 				law(!bytes.Equal(blk, []byte{0}), "block_ne_zero")
 				dst := make([]byte, len(in))
 				n, err := golz4.UncompressBlock(blk, dst)
-				law(err == nil && bytes.Equal(dst[:n], in), "uncompress_fits")
+				if lz4LibraryFails(in) {
+					res.Count("law/uncompress_fits-violated-by-the-library")
+					res.Add(lp.Finding{Kind: "violation", What: lz4LibraryWhat, Input: d + fmt.Sprintf(" (%d bytes, first bytes %x)", len(in), in[:minInt(len(in), 16)])})
+				} else {
+					law(err == nil && bytes.Equal(dst[:n], in), "uncompress_fits")
+				}
 				_, err = golz4.UncompressBlock(blk, make([]byte, len(in)-1))
 				law(err != nil, "uncompress_short")
 			}
@@ -155,3 +160,20 @@ func runC08Model(res *lp.Result, inputs [][]byte) {
 	}
 	finishAsk(res, lines, expect, descr)
 }
+
+// lz4LibraryFails: the third-party block functions alone (no wrapper of the repository involved) do not restore their own
+// output for this input, even with an ample destination buffer
+func lz4LibraryFails(p []byte) bool {
+	if len(p) == 0 {
+		return false
+	}
+	blk, err := lz4Block(p)
+	if err != nil {
+		return true
+	}
+	dst := make([]byte, len(p)+4096)
+	n, err := golz4.UncompressBlock(blk, dst)
+	return err != nil || !bytes.Equal(dst[:n], p)
+}
+
+const lz4LibraryWhat = "third-party LZ4 block codec does not restore its own output (pierrec/lz4 CompressBlock then UncompressBlock)"
